@@ -37,6 +37,9 @@ type Loaded struct {
 func harnessOverlay() (map[string][]byte, error) {
 	ov := map[string][]byte{}
 	hdir := filepath.Join(verifDir, "harness")
+	if d := os.Getenv("VERIF_HARNESS"); d != "" {
+		hdir = d // development: a staged copy of the harnesses
+	}
 	prelude, err := os.ReadFile(filepath.Join(hdir, "prelude.go.txt"))
 	if err != nil {
 		return nil, err
